@@ -46,10 +46,18 @@ class Facts:
         self.config = self.raw.get("config", "")
         self.inlined = []
         self.aligned = {}
+        self.unknown_fns = set()
+        self.value_refs = {}
         if self.crate == "grenad" and self.version != "0.4.7":
             from . import inline, normalize
             self.aligned = normalize.normalize(self.raw)
             self.inlined = inline.inline_unknown_helpers(self.raw)
+            self.unknown_fns = inline.unknown_local_fns(self.raw)
+            self.value_refs = inline.value_referenced(self.raw, self.unknown_fns)
+        import os as _os
+        if _os.environ.get("VERIF_NO_DESUGAR") != "1":
+            from . import desugar
+            self.desugared = desugar.desugar(self.raw)
         self.bodies = [Body(b, self) for b in self.raw["bodies"]]
         self.by_path = defaultdict(list)
         for b in self.bodies:
@@ -82,7 +90,15 @@ class Facts:
         return [b for b in self.bodies if r.search(b.path)]
 
     def closures_of(self, path):
-        return [b for b in self.bodies if b.kind == "Closure" and b.path.startswith(path + "::{closure")]
+        """closures of `path`, plus helper functions unknown to the pinned tree that `path` uses as
+        function values (a closure moved into a named private function is still that closure)"""
+        absorbed = set(self.raw.get("_inlined_closures", []))
+        out = [b for b in self.bodies if b.kind == "Closure" and b.path.startswith(path + "::{closure") and not _absorbed(b.path, absorbed)]
+        for p, refs in self.value_refs.items():
+            if path in refs:
+                out += self.by_path.get(p, [])
+                out += [b for b in self.bodies if b.kind == "Closure" and b.path.startswith(p + "::{closure")]
+        return out
 
     def user_bodies(self):
         """bodies that are not compiler-derived impls and not const-assert helpers"""
@@ -90,6 +106,11 @@ class Facts:
         for b in self.bodies:
             if b.is_derived():
                 continue
+            root = b.path.split("::{closure")[0]
+            if root in self.unknown_fns and root not in self.value_refs:
+                continue  # a helper unknown to the pinned tree, inlined into every caller: analysed there
+            if b.kind == "Closure" and _absorbed(b.path, set(self.raw.get("_inlined_closures", []))):
+                continue  # a closure inlined at the combinator that applies it: analysed in its parent
             out.append(b)
         return out
 
@@ -104,6 +125,11 @@ class Facts:
         if t is None:
             return None
         return t.get(discr)
+
+
+def _absorbed(path, absorbed):
+    """a closure (or a closure nested in it) that was inlined into its parent"""
+    return any(path == a or path.startswith(a + "::{closure") for a in absorbed)
 
 
 class AnchorMissing(Exception):
@@ -266,6 +292,12 @@ class Expr:
                 e = e.a[0].a[0]  # `match r { Ok(x) => x, Err(e) => return Err(e) }` -> r (the Ok payload of r)
             elif e.k == "phi" and len({c.show() for c in e.a}) == 1:
                 e = e.a[0]
+            elif e.k == "call" and e.a and e.x["path"].rsplit("::", 1)[-1] in ("unwrap", "expect") and e.x["path"].startswith(("std::result::Result", "std::option::Option")):
+                # unwrap of a value whose construction is visible: the Ok / Some payload
+                inner = _constructed_payload(e.a[0], "Ok" if "Result" in e.x["path"] else "Some", 0)
+                if inner is None:
+                    return e
+                e = inner
             else:
                 return e
 
@@ -839,7 +871,10 @@ class Body:
 
     def expr_of_place(self, pl, at=None, depth=0, seen=None):
         e = self.expr_of_local(pl["l"], at, depth, seen)
-        for el in pl["p"]:
+        proj = pl["p"]
+        i = 0
+        while i < len(proj):
+            el = proj[i]
             if el == "*":
                 e = Expr("deref", [e])
             elif "f" in el:
@@ -855,9 +890,18 @@ class Body:
             elif "subslice_from" in el:
                 e = Expr("index", [e], i=f"{el['subslice_from']}..{el['to']}")
             elif "downcast" in el:
+                # payload of a value whose construction is visible: (V(x) as V).0 -> x, also through
+                # the join of a desugared combinator / explicit match (phi of constructed variants)
+                nxt = proj[i + 1] if i + 1 < len(proj) else None
+                pay = _constructed_payload(e, el["downcast"], nxt["f"]) if isinstance(nxt, dict) and "f" in nxt else None
+                if pay is not None:
+                    e = pay
+                    i += 2
+                    continue
                 e = Expr("downcast", [e], variant=el["downcast"], vidx=el["vidx"])
             else:
                 e = Expr("unknown")
+            i += 1
         return e
 
     def expr_of_local(self, l, at=None, depth=0, seen=None):
@@ -940,6 +984,39 @@ class Body:
     def arg_exprs(self, site):
         t = self.at(site)
         return [self.expr_of_operand(a, site) for a in t["args"]]
+
+
+def _constructed_payload(e, variant, fidx):
+    """field `fidx` of variant `variant` of e, when e is (a join of) visible constructions"""
+    s = e
+    while s.k in ("ref", "deref"):
+        s = s.a[0]
+    if s.k == "agg" and s.x.get("ak") == "adt":
+        if s.x.get("variant") == variant and fidx < len(s.a):
+            return s.a[fidx]
+        return None
+    if s.k == "phi":
+        outs = []
+        for c in s.a:
+            cc = c
+            while cc.k in ("ref", "deref"):
+                cc = cc.a[0]
+            if cc.k == "agg" and cc.x.get("ak") == "adt":
+                if cc.x.get("variant") == variant and fidx < len(cc.a):
+                    outs.append(cc.a[fidx])
+                # constructions of other variants cannot be observed under this downcast
+                continue
+            sub = _constructed_payload(cc, variant, fidx) if cc.k == "phi" else None
+            if sub is not None:
+                outs.append(sub)
+            else:
+                outs.append(Expr("field", [Expr("downcast", [c], variant=variant, vidx=-1)], name=str(fidx), adt="", idx=fidx, ty=""))
+        if not outs:
+            return None
+        if len(outs) == 1:
+            return outs[0]
+        return Expr("phi", outs, l=-1, name="join")
+    return None
 
 
 def rel(path):
